@@ -11,6 +11,8 @@ Tie
                                against Escape.exception_doc of the generated template.
   * correspondence `tokens`:   the Python tokenizer used by the oracle against Escape.tokenize.
   * correspondence `welcome`:  MapProxyApp.welcome_response against the generated Gen_exc_templates.welcome_response.
+  * correspondence `capabilities`: capabilities documents of the whole application for hostile Host / X-Forwarded-* values
+                               against `fill segs (escape_html host_url)` with the segments of the benign document.
   * correspondence `appdoc`:   XML exception documents produced by the WHOLE application on a malformed-request
                                stream; the message is recovered with lxml and the body must be exactly
                                exception_doc template message code locator.
@@ -1000,6 +1002,89 @@ def part_welcome(ctx, app):
         lambda i: descr[i], shard=150)
 
 
+CAP_DOCS = [('wms111.cap', '/service', 'service=WMS&request=GetCapabilities&version=1.1.1'),
+            ('wms130.cap', '/service', 'service=WMS&request=GetCapabilities&version=1.3.0'),
+            ('wms100.cap', '/service', 'wmtver=1.0.0&request=capabilities'),
+            ('wms110.cap', '/service', 'service=WMS&request=GetCapabilities&version=1.1.0'),
+            ('wmts.kvp.cap', '/service', 'service=WMTS&request=GetCapabilities&version=1.0.0'),
+            ('wmts.rest.cap', '/wmts/1.0.0/WMTSCapabilities.xml', ''),
+            ('tms.root', '/tms', ''), ('tms.cap', '/tms/1.0.0/', ''), ('tms.layercap', '/tms/1.0.0/cached/EPSG900913', '')]
+CAP_HOSTS = [{'HTTP_HOST': 'evil"><c18m x="'}, {'HTTP_X_FORWARDED_HOST': "a&b'><c18m>"}, {'HTTP_X_FORWARDED_PROTO': '"><c18m x="'},
+             {'HTTP_HOST': 'h<c18m>:8080'}, {'HTTP_X_FORWARDED_HOST': 'proxy.example, other', 'HTTP_X_FORWARDED_PROTO': 'https'},
+             {'HTTP_HOST': 'localhost:80'}, {'HTTP_HOST': 'h\xe4st.example'}, {'HTTP_X_FORWARDED_PROTO': "java'script"},
+             {'HTTP_HOST': '&amp;&lt;'}, {'HTTP_X_FORWARDED_HOST': '</Service><c18m/>'}]
+
+
+def part_capabilities(ctx, app):
+    """Capabilities documents as `fill segs (escape_html host_url)`: the segments are taken from the document for a benign
+    host; for hostile Host / X-Forwarded-* values the real document must be exactly the same segments filled with the
+    model's escape_html of the host URL that the real Request computes (theorem capabilities_structure_independent_of_host
+    then says that its token structure is that of the benign document)."""
+    try:
+        from mapproxy.request.base import Request
+    except Exception as e:  # noqa
+        ctx.problem('harness', 'cannot import mapproxy.request.base: %r' % (e,))
+        return
+    marker_host = 'hostmarker.c18.example'
+    defs, terms, descr = [], [], []
+    docs = CAP_DOCS if not ctx.quick else [CAP_DOCS[i] for i in (0, 1, 4, 5, 7, 8)]
+    for k, (name, path, qs) in enumerate(docs):
+        res = call_app(app, path, qs, {'HTTP_HOST': marker_host})
+        if 'chunks' not in res or not (res.get('status') or '').startswith('200'):
+            ctx.fail('capabilities,no-answer', 'no capabilities document for %s: %r' % (name, res.get('status') or res.get('raised')),
+                     {'service': name, 'PATH_INFO': path, 'QUERY_STRING': qs})
+            continue
+        ref = b''.join(res['chunks']).decode('utf-8', 'replace')
+        marker = 'http://' + marker_host
+        parts = ref.split(marker)
+        if len(parts) < 2:
+            ctx.problem('harness', 'the capabilities document %s does not mention the request host' % name)
+            continue
+        ref_shape = [t[0] for t in py_tokenize(ref)]
+        segs = []
+        for i, ptxt in enumerate(parts):
+            if i:
+                segs.append('Ins')
+            segs.append('Fix %s' % slist(ptxt))
+        defs.append('Definition segs_%d : list seg := [%s].' % (k, '; '.join(segs)))
+        hosts = CAP_HOSTS if not ctx.quick else [CAP_HOSTS[(k + j) % len(CAP_HOSTS)] for j in (0, 1, 2)]
+        for hdr in hosts:
+            hdr = dict((h, v.encode('utf-8').decode('latin-1')) for h, v in hdr.items())     # PEP 3333 header text
+            res = call_app(app, path, qs, hdr)
+            rep = {'service': name, 'PATH_INFO': path, 'QUERY_STRING': qs, 'headers': hdr, 'status': res.get('status')}
+            ctx.case(('capabilities', name, tuple(sorted(hdr.items()))), True,
+                     {'part': 'capabilities', 'document': name, 'headers': hdr})
+            ctx.count('capabilities:doc=' + name)
+            if 'chunks' not in res:
+                ctx.fail('service=%s,wsgi-raised' % name.split('.')[0], 'the WSGI application raised %s' % res.get('raised'), rep)
+                continue
+            try:
+                doc = b''.join(res['chunks']).decode('utf-8')
+            except UnicodeDecodeError:
+                ctx.fail('capabilities,not-utf8', 'capabilities document %s is not UTF-8' % name, rep)
+                continue
+            env = {'SERVER_NAME': 'localhost', 'SERVER_PORT': '80', 'wsgi.url_scheme': 'http', 'HTTP_HOST': 'localhost', 'SCRIPT_NAME': ''}
+            env.update(hdr)
+            try:
+                raw = Request(env).host_url.rstrip('/')
+            except Exception as e:  # noqa
+                ctx.fail('capabilities,host-url-raised', 'Request.host_url raised %r' % (e,), rep)
+                continue
+            shp = [t[0] for t in py_tokenize(doc)]
+            if shp != ref_shape:
+                ctx.fail('capabilities,structure-depends-on-host', 'the token structure of %s changes with the request host %r (%d tokens instead '
+                         'of %d)' % (name, hdr, len(shp), len(ref_shape)), rep)
+            else:
+                prob = xml_document_problem(doc.encode('utf-8'), doc)
+                if prob:
+                    ctx.fail('service=%s,%s' % (name.split('.')[0], prob[0]), prob[1], rep)
+            terms.append('(segs_%d, %s, %s)' % (k, slist(raw), slist(doc)))
+            descr.append(dict(rep, host_url_of_Request=cps(raw), document_head=doc[:300]))
+    ctx.corr_check('capabilities', 'Escape', 'list seg * list Z * list Z', terms,
+                   "fun c => let '(segs, raw, doc) := c in str_eqb (fill segs (escape_html raw)) doc",
+                   lambda i: descr[i], shard=3, defs='\n'.join(defs))
+
+
 def part_app(ctx, skeletons):
     logging.disable(logging.CRITICAL)
     try:
@@ -1009,6 +1094,7 @@ def part_app(ctx, skeletons):
         ctx.problem('harness', 'cannot build the application: %r' % (e,), traceback.format_exc())
         return
     part_welcome(ctx, app)
+    part_capabilities(ctx, app)
     bases = base_requests()
     appdocs = []
     stream = []
